@@ -28,7 +28,13 @@ import (
 	"verif/vk"
 )
 
-const verifDir = "/verif"
+// verifDir is the directory run.sh lives in (VERIF_DIR, exported by run.sh): /verif, or a snapshot of it.
+var verifDir = func() string {
+	if d := os.Getenv("VERIF_DIR"); d != "" {
+		return d
+	}
+	return "/verif"
+}()
 
 // repoDir is the tree under test: /repo, or (for trying seeded changes without touching /repo)
 // a scratch worktree named by VERIF_REPO. The registered commands never set VERIF_REPO.
